@@ -69,5 +69,31 @@ theorem C02_pred_ctx_is_stale (E : Env) (blk : Nat) (s : PState) :
     ∃ ev, (callBlock E blk s).2.trace = ev :: s.trace ∧ ev.pos = s.curPos ∧ ev.text = s.curText :=
   ⟨_, rfl, rfl, rfl⟩
 
+
+/-- the state `parse` starts the start rule in satisfies the position invariant -/
+theorem startState_ptinv (E : Env) : PtInv E (startState E) := by
+  refine ⟨?_, fun e he => by simp [startState, initState] at he⟩
+  show Reach E.input (read E (initState E)).pt
+  rw [read_pt]
+  exact Reach.first E.input
+
+/-- **C02 (b)** line, col and offset are a pure function of the input and the byte offset, however
+    much backtracking, memoised skipping or seed growing preceded: after evaluating any expression
+    the parser's savepoint (and every memoized end position) is one of the positions the reader
+    passes through when reading the input from the start … -/
+theorem C02_position_reachable (E : Env) (f : Nat) (e : Expr) (s s' : PState) (v : Val) (ok : Bool)
+    (hm : MemoOK s) (hp : PtInv E s) (h : parseExpr E f e s = .done v ok s') : PtInv E s' := by
+  have := parseExpr_frame E f e s hm
+  rw [h] at this
+  exact this.stk.ptinv hp
+
+/-- … and such a position is determined by its offset alone (offset counts bytes; line and column
+    are what reading the bytes before it produces). In particular every action block that starts a
+    match at a given offset sees the same `pos`, on every path that leads there. -/
+theorem C02_pos_pure (E : Env) (a b : Savepoint) (ha : Reach E.input a) (hb : Reach E.input b)
+    (h : a.pos.off = b.pos.off) : a.pos = b.pos ∧ a.rn = b.rn ∧ a.w = b.w := by
+  have := Reach.unique ha hb h
+  subst this; exact ⟨rfl, rfl, rfl⟩
+
 end RT
 end PV
